@@ -1070,7 +1070,6 @@ func ruleSpongeSqueeze(cx *Ctx) []Obligation {
 	if fn == nil {
 		return []Obligation{undecided(key, desc, "poseidon.GoldilocksChip.HashNToMNoPad not found")}
 	}
-	fi := GetFnInfo(fn)
 	rate := int64(-1)
 	if c, ok := P.SPkgs["poseidon"].Members["SPONGE_RATE"].(*ssa.NamedConst); ok {
 		rate, _ = constInt(c.Value)
@@ -1079,7 +1078,23 @@ func ruleSpongeSqueeze(cx *Ctx) []Obligation {
 		return []Obligation{undecided(key, desc, "constant SPONGE_RATE not found")}
 	}
 	found := 0
+	// the squeeze phase may live in a helper of the same package that HashNToMNoPad calls (squeeze(state, n))
+	scan := []*ssa.Function{fn}
 	for _, b := range fn.Blocks {
+		for _, ins := range b.Instrs {
+			if c, ok := ins.(ssa.CallInstruction); ok {
+				if g := c.Common().StaticCallee(); g != nil && g.Blocks != nil && fnPkgShort(g) == "poseidon" && g.Name() != "Poseidon" && g != fn {
+					scan = append(scan, g)
+				}
+			}
+		}
+	}
+	var blocks []*ssa.BasicBlock
+	for _, g := range scan {
+		blocks = append(blocks, g.Blocks...)
+	}
+	for _, b := range blocks {
+		fi := GetFnInfo(b.Parent())
 		for _, ins := range b.Instrs {
 			ld, ok := ins.(*ssa.UnOp)
 			if !ok || ld.Op != token.MUL {
@@ -1183,83 +1198,174 @@ func ruleSpongeOverwrite(cx *Ctx) []Obligation {
 	if fn == nil {
 		return []Obligation{undecided(key, desc, "poseidon.GoldilocksChip.HashNToMNoPad not found")}
 	}
-	fi := GetFnInfo(fn)
-	input := ssa.Value(fn.Params[1])
-	// the state array: the local of array type that is passed to / assigned from Poseidon
-	var state *ssa.Alloc
-	for _, b := range fn.Blocks {
-		for _, ins := range b.Instrs {
-			if a, ok := ins.(*ssa.Alloc); ok {
-				if pt, ok := a.Type().Underlying().(*types.Pointer); ok {
-					if at, isArr := pt.Elem().Underlying().(*types.Array); isArr && typeIs(at.Elem(), "goldilocks.Variable") && at.Len() > 4 && state == nil {
-						state = a // the sponge state (width 12); compiler temporaries for variadic calls have length 1
-					}
-				}
-			}
-		}
-	}
-	if state == nil {
-		return []Obligation{undecided(key, desc, "the sponge state array was not found")}
-	}
 	rate := int64(-1)
 	if c, ok := P.SPkgs["poseidon"].Members["SPONGE_RATE"].(*ssa.NamedConst); ok {
 		rate, _ = constInt(c.Value)
 	}
-	nGood := 0
+	if rate <= 0 {
+		return []Obligation{undecided(key, desc, "constant SPONGE_RATE not found")}
+	}
+	isStateArr := func(t types.Type) bool {
+		if pt, ok := t.Underlying().(*types.Pointer); ok {
+			t = pt.Elem()
+		}
+		at, ok := t.Underlying().(*types.Array)
+		return ok && typeIs(at.Elem(), "goldilocks.Variable") && at.Len() > 4
+	}
+	isInputList := func(v ssa.Value) bool {
+		for k := 0; k < 6; k++ {
+			switch x := v.(type) {
+			case *ssa.Slice:
+				v = x.X
+				continue
+			case *ssa.ChangeType:
+				v = x.X
+				continue
+			case *ssa.Parameter:
+				st, ok := x.Type().Underlying().(*types.Slice)
+				return ok && typeIs(st.Elem(), "goldilocks.Variable")
+			}
+			break
+		}
+		return false
+	}
+	// the functions that take part in the absorption: HashNToMNoPad and the helpers of its package it calls from
+	// inside a loop that reads the input, handing them the state
+	type region struct {
+		fn     *ssa.Function
+		helper bool
+	}
+	regions := []region{{fn, false}}
+	fiTop := GetFnInfo(fn)
+	input := ssa.Value(fn.Params[1])
 	for _, b := range fn.Blocks {
-		loops := fi.LoopsOf[b.Index]
+		loops := fiTop.LoopsOf[b.Index]
+		if len(loops) == 0 || !usesInputDeep(fn, loops[0], input) {
+			continue
+		}
 		for _, ins := range b.Instrs {
-			st, ok := ins.(*ssa.Store)
+			c, ok := ins.(ssa.CallInstruction)
 			if !ok {
 				continue
 			}
-			ia, ok := st.Addr.(*ssa.IndexAddr)
-			if !ok || ia.X != ssa.Value(state) {
+			g := c.Common().StaticCallee()
+			if g == nil || g.Blocks == nil || fnPkgShort(g) != "poseidon" || g.Name() == "Poseidon" || g == fn {
 				continue
 			}
-			site := P.Pos(st.Pos())
-			// which loop's induction variable indexes the state?
-			var jl *SLoop
-			for _, l := range loops {
-				if l.IndexVal == ia.Index {
-					jl = l
+			takesState := false
+			for _, a := range c.Common().Args {
+				if isStateArr(a.Type()) {
+					takesState = true
 				}
 			}
-			if jl == nil {
-				if len(loops) > 0 && loops[0].StartConst != nil && len(loops) == 1 && !usesInput(fn, loops[0], input) {
-					continue // initialisation loop (state[i] = 0) before absorption
+			if takesState {
+				regions = append(regions, region{g, true})
+			}
+		}
+	}
+	nGood := 0
+	for _, rg := range regions {
+		f := rg.fn
+		fi := GetFnInfo(f)
+		for _, b := range f.Blocks {
+			loops := fi.LoopsOf[b.Index]
+			for _, ins := range b.Instrs {
+				st, ok := ins.(*ssa.Store)
+				if !ok {
+					continue
 				}
-				return []Obligation{bad(key, desc, "the state is written at an index that is not the rate loop's variable", site)}
-			}
-			if !usesInput(fn, jl, input) && (jl.Parent == nil || !usesInput(fn, jl.Parent, input)) {
-				continue // initialisation loop
-			}
-			// absorption: value must be input[i+j]
-			okVal := false
-			if u, ok := st.Val.(*ssa.UnOp); ok && u.Op == token.MUL {
-				if src, ok := u.X.(*ssa.IndexAddr); ok && src.X == input {
-					if add, ok := src.Index.(*ssa.BinOp); ok && add.Op == token.ADD && jl.Parent != nil &&
-						((add.X == jl.Parent.IndexVal && add.Y == jl.IndexVal) || (add.Y == jl.Parent.IndexVal && add.X == jl.IndexVal)) {
-						okVal = true
+				ia, ok := st.Addr.(*ssa.IndexAddr)
+				if !ok || !isStateArr(ia.X.Type()) {
+					continue
+				}
+				if _, isSl := ia.X.Type().Underlying().(*types.Slice); isSl {
+					continue
+				}
+				site := P.Pos(st.Pos())
+				if !rg.helper && (len(loops) == 0 || !usesInputDeep(f, loops[0], input)) {
+					continue // initialisation (state[i] = 0) before absorption
+				}
+				// absorption: the stored value is an element of the input …
+				ld, isLd := st.Val.(*ssa.UnOp)
+				var src *ssa.IndexAddr
+				if isLd && ld.Op == token.MUL {
+					src, _ = ld.X.(*ssa.IndexAddr)
+				}
+				if src == nil || !isInputList(src.X) {
+					return []Obligation{bad(key, desc, "inside the absorption loops the state is also written with something other than an input element (e.g. zero-filling of a partial chunk): "+st.Val.String(), site)}
+				}
+				// … the one at (chunk start + lane): source index − lane is one variable (the chunk start)
+				d, p := poly(ia.Index), poly(src.Index)
+				diff := polySub(p, d)
+				okDiff := false
+				if len(diff) == 1 {
+					for m, c := range diff {
+						if m != "" && c == 1 && !strings.Contains(m, "*") {
+							okDiff = true
+						}
 					}
 				}
+				if !okDiff {
+					return []Obligation{bad(key, desc, "the lane written and the input element read are not related as state[j] = input[chunk start + j]", site)}
+				}
+				// … into a lane below the rate
+				if len(loops) == 0 {
+					return []Obligation{bad(key, desc, "a single lane is written outside a loop over the chunk", site)}
+				}
+				li := loops[len(loops)-1]
+				laneOK := false
+				if li.Counted && li.Step == 1 && li.Op == token.LSS && li.Phi != nil {
+					ivp := ipoly{li.Phi.Name(): 1}
+					if li.RangeForm {
+						ivp = poly(li.IndexVal)
+					}
+					switch {
+					case li.StartConst != nil && *li.StartConst == 0 && ipolyEq(d, ivp):
+						if bnd, isC := constInt(stripCopies(li.Bound)); isC && bnd <= rate {
+							laneOK = true
+						}
+					case li.StartVal != nil && ipolyEq(polySub(ivp, poly(li.StartVal)), d):
+						if w, wok := widthOf(li.Bound, li.StartVal, src.X); wok && w <= rate {
+							laneOK = true
+						}
+					}
+				}
+				if !laneOK {
+					return []Obligation{bad(key, desc, "cannot show that the lane written is below SPONGE_RATE (the rate loop does not run over j = 0 … SPONGE_RATE−1)", site)}
+				}
+				nGood++
 			}
-			if !okVal {
-				return []Obligation{bad(key, desc, "inside the absorption loops the state is also written with something other than input[i+j] (e.g. zero-filling of a partial chunk): "+st.Val.String(), site)}
-			}
-			if b2, ok := constInt(jl.Bound); !ok || b2 != rate || jl.StartConst == nil || *jl.StartConst != 0 || jl.Step != 1 {
-				return []Obligation{bad(key, desc, "the rate loop does not run over j = 0 … SPONGE_RATE−1", site)}
-			}
-			if jl.Parent == nil || jl.Parent.Step != rate || jl.Parent.StartConst == nil || *jl.Parent.StartConst != 0 {
-				return []Obligation{bad(key, desc, "the chunk loop does not advance by SPONGE_RATE from 0", site)}
-			}
-			nGood++
 		}
 	}
 	if nGood == 0 {
 		return []Obligation{bad(key, desc, "no absorption store state[j] = input[i+j] found", P.FnName(fn))}
 	}
 	return []Obligation{good(key, desc, P.FnName(fn)+" "+P.Pos(fn.Pos()))}
+}
+
+// usesInputDeep: the loop reads the input list itself or hands it to a call
+func usesInputDeep(fn *ssa.Function, l *SLoop, input ssa.Value) bool {
+	for b := range l.Blocks {
+		for _, ins := range b.Instrs {
+			switch x := ins.(type) {
+			case *ssa.IndexAddr:
+				if x.X == input {
+					return true
+				}
+			case *ssa.Slice:
+				if x.X == input {
+					return true
+				}
+			case ssa.CallInstruction:
+				for _, a := range x.Common().Args {
+					if a == input {
+						return true
+					}
+				}
+			}
+		}
+	}
+	return false
 }
 
 func usesInput(fn *ssa.Function, l *SLoop, input ssa.Value) bool {
